@@ -1,6 +1,7 @@
 import SnaxVerif.Drv.Basic
 import SnaxVerif.Model.Stream
 import SnaxVerif.Model.StreamLayout
+import SnaxVerif.Model.AffineTransform
 namespace SnaxVerif.Drv.C02
 open Lean SnaxVerif SnaxVerif.Drv SnaxVerif.Stream SnaxVerif.Stride
 
@@ -86,6 +87,9 @@ def hwH : Handler := fun j => do
 structure OpArgs where
   L : Option AExpr
   tsl : Option Tsl.SLayout      -- the operand's memref type carries a static #tsl.tsl layout: L is built by the model
+  pat : Option (List AExpr)     -- the result expressions of the op's pattern for this operand: A, b (resp. the strides)
+                                -- are then computed by the model of `AffineTransform.from_affine_map` (C19)
+  patErr : Option String        -- … which refused the map (computed, not sent)
   dynTsl : Option Tsl.Layout    -- … a #tsl.tsl layout with dynamic entries (`?`)
   dynStrided : String           -- "" | "stride" (strided<> with a dynamic stride: xDSL's get_affine_map refuses the
                                 -- semi-affine product) | "offset" (only the offset is dynamic: the composed map has a symbol)
@@ -122,19 +126,25 @@ def opOfJson (j : Json) : Except String OpArgs := do
   let dynStrided ← match j.getObjVal? "dynStrided" with
     | .ok t => str t
     | .error _ => pure ""
-  return { L := ← optOf aexprOfJson (← field j "L"), tsl := tsl, dynTsl := dynTsl, dynStrided := dynStrided, A := ← listOf (listOf int) (← field j "A"),
+  let pat ← match j.getObjVal? "pat" with
+    | .ok t => optOf (listOf aexprOfJson) t
+    | .error _ => pure none
+  return { L := ← optOf aexprOfJson (← field j "L"), tsl := tsl, pat := pat, patErr := none, dynTsl := dynTsl, dynStrided := dynStrided, A := ← listOf (listOf int) (← field j "A"),
            b := ← listOf int (← field j "b"), strides := ← optOf (listOf int) (← field j "strides"),
            relevant := ← listOf bool (← field j "relevant"), dims := ← listOf nat (← field j "dims"),
            bc := ← bool (← field j "bc"), el := ← nat (← field j "el"), k := ← nat (← field j "k") }
 
 /-- convert the operands in order; the first error stops (as the Python loop does) -/
-def convAll (bounds : List Nat) : List (OpArgs × List Int) → Except Err (List (Res × List Stride.Loop × OpArgs))
+def convAll (bounds : List Nat) : List (OpArgs × List Int) → Except String (List (Res × List Stride.Loop × OpArgs))
   | [] => .ok []
   | (o, s) :: r =>
-    let it := accessIter s bounds o.relevant
-    match toStridePattern it o.dims o.bc with
-    | .error e => .error e
-    | .ok x => (convAll bounds r).map fun l => (x, it, o) :: l
+    match o.patErr with
+    | some e => .error e       -- `AffineTransform.from_affine_map(op.patterns.data[operand].data)` at the top of the loop body
+    | none =>
+      let it := accessIter s bounds o.relevant
+      match toStridePattern it o.dims o.bc with
+      | .error e => .error (errName e)
+      | .ok x => (convAll bounds r).map fun l => (x, it, o) :: l
 
 /-- the whole chain for one op.
     args: {"bounds": [nat], "variant": {...}, "resolveOnly": bool,
@@ -151,6 +161,24 @@ def runH : Handler := fun j => do
     | [t, s] => pure ((← nat t), (← nat s))
     | _ => throw "bad streamer") (← field j "streamers")
   let n := bounds.length
+  let accessLevel := match j.getObjVal? "accessLevel" with
+    | .ok (.bool b) => b
+    | _ => false
+  -- pattern -> matrix form through the model of `AffineTransform.from_affine_map` (guard: no floordiv / ceildiv / mod)
+  let atErr : AT.Err → String := fun e => match e with | .valueError => "ValueError" | .indexError => "IndexError"
+  let ops := ops.map fun o => match o.pat with
+    | none => o
+    | some rs => match AT.fromMap n rs with
+      | .ok t => if accessLevel then { o with strides := some (t.A.headD []) } else { o with A := t.A, b := t.b }
+      | .error e => { o with patErr := some (atErr e), strides := some [] }
+  let jAB := jList (fun (o : OpArgs) => if o.pat.isSome && o.patErr.isNone then
+      Json.mkObj [("A", jList (jList jInt) o.A), ("b", jList jInt o.b)] else Json.null) ops
+  -- layout resolution builds `Schedule(SchedulePattern(bounds, pattern) ...)` for ALL operands first
+  if !accessLevel then
+    for o in ops do
+      match o.patErr with
+      | some e => return Json.mkObj [("strides", Json.null), ("resolveRaised", Json.str e), ("conv", Json.null)]
+      | none => pure ()
   -- operands with a TSL layout: the byte layout expression comes from the model of get_affine_map (C10) * element size
   for o in ops do
     let raised (e : String) := Json.mkObj [("strides", Json.null), ("resolveRaised", Json.str e), ("conv", Json.null)]
@@ -193,12 +221,12 @@ def runH : Handler := fun j => do
     | none, some s => pure s
     | none, none => throw "operand without layout and without strides"
   let jStrides := if ops.all (fun o => o.L.isSome) then jList (jList jInt) resolved else Json.null
-  if ronly then return Json.mkObj [("strides", jStrides), ("aligned", aligned), ("conv", Json.null)]
+  if ronly then return Json.mkObj [("strides", jStrides), ("aligned", aligned), ("AB", jAB), ("conv", Json.null)]
   for (o, s) in ops.zip resolved do
-    if s.length ≠ n ∨ o.relevant.length ≠ n then throw "strides / bounds / relevant differ in length: outside the model"
+    if o.patErr.isNone ∧ (s.length ≠ n ∨ o.relevant.length ≠ n) then throw "strides / bounds / relevant differ in length: outside the model"
   match convAll bounds (ops.zip resolved) with
-  | .error e => return Json.mkObj [("strides", jStrides), ("aligned", aligned),
-      ("conv", Json.mkObj [("raised", Json.str (errName e))])]
+  | .error e => return Json.mkObj [("strides", jStrides), ("aligned", aligned), ("AB", jAB),
+      ("conv", Json.mkObj [("raised", Json.str e)])]
   | .ok rs =>
     let pats := rs.map fun x => x.1.pat
     let flags := jList (fun (x : Res × List Stride.Loop × OpArgs) => Json.mkObj [("warned", Json.bool x.1.warned),
@@ -210,7 +238,7 @@ def runH : Handler := fun j => do
     match customize v pats with
     | .error e => return Json.mkObj [("strides", jStrides), ("aligned", aligned),
         ("conv", Json.mkObj [("handed", jList patToJson pats), ("raised", Json.str (errName e))])]
-    | .ok c => return Json.mkObj [("strides", jStrides), ("aligned", aligned), ("dataIndex", dataIdx),
+    | .ok c => return Json.mkObj [("strides", jStrides), ("aligned", aligned), ("dataIndex", dataIdx), ("AB", jAB),
         ("conv", Json.mkObj [("handed", jList patToJson pats),
         ("custom", jList patToJson c), ("final", jList patToJson (c.map Pattern.canonicalize)),
         ("verified", Json.bool (verifyRegion streamers (c.map Pattern.canonicalize))), ("flags", flags),
